@@ -63,7 +63,10 @@ ASSUMPTIONS = ["the user's hash function is a function of what the user's equali
 RULE = ("op programs over 1-2 tables, 3-64 key identities x 2 pointers, adversarial user hashes (all-equal, 0, 2^64-1, clustered "
         "at size-1, same home different high bits, random), initial sizes {0,1,2,3,8,64}, destructor sets {kv,k,v,-}; "
         "non-trivial = >=1 overwrite-or-remove and (>=1 growth or >=1 iterator/foreach deletion); distinct by op-file hash; "
-        "plus exhaustive put/remove/iterate programs on a 4-slot table")
+        "plus exhaustive put/remove/iterate programs on a 4-slot table; plus tables keyed through the library's own pairs "
+        "(aws_string / C string / byte cursor / uint64 / pointer keys with their hash, equality and destroy callbacks; every lookup "
+        "key a fresh equal object at another alignment) against a plain dict, and the pairs themselves on adversarial key pairs "
+        "(differ in last byte only, same length and first byte, proper prefix, equal up to an embedded NUL, high-32-bit differences)")
 NOT_PROVED = ["aws_hash_ptr / aws_hash_combine are modelled and compared (W) but carry no theorem (there is no equality notion to be "
               "consistent with beyond pointer identity)"]
 
@@ -273,6 +276,78 @@ def gen_lookup3_cases(rng, nrandom):
     return out
 
 
+def _pair_keys(rng, kind):
+    """two key tokens with an adversarial relationship for the pair's equality callback"""
+    if kind in ("u64", "ptr"):
+        a = rng.choice([0, 1, 0xffffffff, 1 << 32, M64, rng.getrandbits(64), rng.getrandbits(20)])
+        r = rng.random()
+        b = a if r < 0.35 else (a ^ (1 << rng.choice([32, 33, 47, 63]))) if r < 0.7 else (a ^ (1 << rng.randrange(32))) if r < 0.85 \
+            else rng.getrandbits(64)
+        return f"{a:x}", f"{b & M64:x}"
+    n = rng.choice([0, 1, 2, 3, 7, 8, 9, 10, 12, 13, 14])
+    a = bytearray(rng.randrange(1, 256) for _ in range(n))
+    b = bytearray(a)
+    r = rng.random()
+    if r < 0.3 or n == 0:
+        pass                                        # equal
+    elif r < 0.5:
+        b[-1] ^= 1 << rng.randrange(8)              # differ in the LAST byte only (length-1 comparisons miss it)
+        if b[-1] == 0:
+            b[-1] = 1
+    elif r < 0.65 and n > 1:
+        b[rng.randrange(1, n)] ^= 0x20              # same length, same first byte
+        b = bytearray(x or 1 for x in b)
+    elif r < 0.75:
+        b = b + bytearray([rng.randrange(1, 256)])  # proper prefix
+    elif r < 0.85 and kind != "cstr" and n > 0:
+        i = rng.randrange(n); a[i] = 0; b[i] = 0    # embedded NUL, equal
+        if rng.random() < 0.5 and i + 1 < n:
+            b[-1] ^= 0x40                           # ... or different only behind the NUL
+    elif kind == "cstr" and n > 2:
+        i = rng.randrange(1, n); a[i] = 0; b[i] = 0; b[-1] ^= 0x11   # C strings: equal up to the NUL, different behind it
+    else:
+        b = bytearray(rng.randrange(1, 256) for _ in range(n))
+    return (bytes(a).hex() or "-"), (bytes(b).hex() or "-")
+
+
+def gen_typed_case(rng):
+    """a table keyed through one of the library's own hash / equality (/ destroy) pairs, driven like a map: every lookup key
+    is a fresh, equal key object at another address / alignment"""
+    kind = rng.choice(["str", "cstr", "cur", "u64", "ptr"])
+    ops = [f"tinit {kind} {rng.choice([0, 2, 3, 8])}"]
+    pool = []
+    for _ in range(rng.randint(2, 9)):
+        a, b = _pair_keys(rng, kind)
+        pool += [a, b]
+    v = 0
+    for _ in range(rng.randint(4, 40)):
+        k = rng.choice(pool)
+        r = rng.random()
+        if r < 0.45:
+            v += 1
+            ops.append(f"tput {k} v{v}")
+        elif r < 0.7:
+            ops.append(f"tfind {k}")
+        elif r < 0.9:
+            ops.append(f"trem {k}")
+        else:
+            ops.append(f"pair {kind} {k} {rng.choice(pool)}")
+    if rng.random() < 0.7:
+        ops.append("tclean")
+        if rng.random() < 0.3:
+            ops += [f"tinit {kind} 2", f"tput {rng.choice(pool)} v1"]
+    return Case(ops, {"kind": "typed", "pair": kind})
+
+
+def gen_pair_case(rng):
+    ops = ["lowertab"]
+    for _ in range(60):
+        kind = rng.choice(["str", "cstr", "cur", "u64", "ptr"])
+        a, b = _pair_keys(rng, kind)
+        ops.append(f"pair {kind} {a} {b}")
+    return Case(ops, {"kind": "pairs"})
+
+
 def tolower_sweep_case():
     """every byte value against itself and against its 0x20-flipped partner (boundary bytes '@' '[' '`' '{' included)"""
     ops = []
@@ -318,6 +393,7 @@ def gen_cases(rng, tier):
     cases += [gen_eq_case(rng) for _ in range(60 if quick else 1500)]
     cases += [gen_hashic_case(rng) for _ in range(20 if quick else 500)] + [tolower_sweep_case()]
     cases += gen_lookup3_cases(rng, 150 if quick else 5000)
+    cases += [gen_typed_case(rng) for _ in range(400 if quick else 8000)] + [gen_pair_case(rng) for _ in range(20 if quick else 300)]
     if quick:
         cases += exhaustive_cases(4)                       # 3 * 8^4 * 4 = 49 152 programs with iteration tails
         full = exhaustive_cases(5, with_iter=False)        # a random slice of the depth-5 space
@@ -380,6 +456,7 @@ def oracle(case, lines):
             return False
         return True
 
+    typed = {"kind": None, "d": {}}
     tabs = {}
     iters = {}   # name -> dict(tab, valid, remaining: set of idents still to be visited, cur: ident or None, status)
 
@@ -397,6 +474,9 @@ def oracle(case, lines):
             continue
         if o in ("hashic", "hptr", "hcomb", "hptrv", "hcombv"):
             continue    # W only
+        if o in ("tinit", "tput", "tfind", "trem", "tclean", "pair", "lowertab"):
+            _typed_oracle(op, tk, typed, take, expect, errs)
+            continue
         if o in ("hl2s", "hl2sv"):
             l = take()
             if l != f"P {o} consistent=1":
@@ -592,6 +672,59 @@ def oracle(case, lines):
                 errs.append("harness assertion: " + P[pos[0]])
             pos[0] += 1
     return errs
+
+
+def _canon(kind, tok):
+    """what the library pair's equality sees of a key token"""
+    if kind in ("u64", "ptr"):
+        return "%x" % (int(tok, 16) & M64)
+    b = bytes.fromhex(tok) if tok != "-" else b""
+    if kind == "cstr":
+        b = b.split(b"\0")[0]
+    return b.hex() or "-"
+
+
+def _typed_oracle(op, tk, typed, take, expect, errs):
+    """tables keyed through the library's own hash/equality pairs, and the pairs themselves, against a plain dict"""
+    o = tk[0]
+    tline = lambda: f"P TC n={len(typed['d'])} " + (" ".join(sorted(f"{k}={v}" for k, v in typed["d"].items())) or "-")
+    if o == "lowertab":
+        expect("P lowertab " + bytes(c + 32 if 65 <= c <= 90 else c for c in range(256)).hex(), op)
+    elif o == "pair":
+        kind = tk[1]
+        eq = int(_canon(kind, tk[2]) == _canon(kind, tk[3]))
+        l = take()
+        m = re.fullmatch(r"P pair eq=(\d) hasheq=(\d)", l or "")
+        if not m:
+            errs.append(f"{op}: unexpected `{l}`")
+        elif int(m.group(1)) != eq:
+            errs.append(f"{op}: the library's equality callback for `{kind}` keys answers {m.group(1)}, the keys are "
+                        f"{'equal' if eq else 'different'}")
+        elif eq and m.group(2) != "1":
+            errs.append(f"{op}: equal `{kind}` keys hash differently")
+    elif o == "tinit":
+        if typed["kind"] is not None:
+            expect("P tinit refused", op)
+        else:
+            typed["kind"], typed["d"] = tk[1], {}
+            expect("P tinit OK", op) and expect(tline(), op)
+    elif typed["kind"] is None:
+        expect("P nil", op)
+    elif o == "tput":
+        k = _canon(typed["kind"], tk[1])
+        created = int(k not in typed["d"])
+        typed["d"][k] = tk[2]
+        expect(f"P tput created={created}", op) and expect(tline(), op)
+    elif o == "tfind":
+        k = _canon(typed["kind"], tk[1])
+        expect("P tfind " + (f"{k}={typed['d'][k]}" if k in typed["d"] else "none"), op)
+    elif o == "trem":
+        k = _canon(typed["kind"], tk[1])
+        present = int(typed["d"].pop(k, None) is not None)
+        expect(f"P trem present={present}", op) and expect(tline(), op)
+    elif o == "tclean":
+        typed["kind"], typed["d"] = None, {}
+        expect("P tclean", op)
 
 
 def _iter_advance(take, errs, op, it, tab):
